@@ -74,7 +74,7 @@ Print Assumptions C14_add_registers_on_running.
 (* C14_independent (a): whether run r can take its next step depends on r's own record only - never on what another
    run is doing (sleeping, waiting, raising, being cancelled) *)
 Theorem C14_independent_enabled : forall cfg s1 s2 l r,
-  d_live_iter cfg = false -> owner l = Some r -> st_task s1 r = st_task s2 r ->
+  d_live_iter cfg = false -> d_call_cancel_kills cfg = false -> owner l = Some r -> st_task s1 r = st_task s2 r ->
   (step cfg s1 l <> None <-> step cfg s2 l <> None).
 Proof. exact enabled_local. Qed.
 Print Assumptions C14_independent_enabled.
@@ -85,18 +85,20 @@ Theorem C14_independent_frame : forall cfg s l s' r r',
 Proof. exact step_frame. Qed.
 Print Assumptions C14_independent_frame.
 
-(* (c) the only step that does is the reaper executing the cancel request at the head of its queue, and a task gets into
-   that queue only by a task.cancel naming it or a task.unique taking over a name it owns *)
+(* (c) the only steps that do are the reaper executing the cancel request at the head of its queue - a task gets into that
+   queue only by a task.cancel naming it or a task.unique taking over a name it owns - and asyncio handing the pending
+   cancellation of a run blocked in a blocking service.call on to the service run it awaits *)
 Theorem C14_only_requested_cancels : forall cfg s l s' x,
   step cfg s l = Some s' ->
-  (owner l <> Some x -> st_task s' x <> st_task s x -> l = LReaper /\ hd_error (st_rq s) = Some x) /\
+  (owner l <> Some x -> st_task s' x <> st_task s x ->
+   (l = LReaper /\ hd_error (st_rq s) = Some x) \/ (exists t, l = LPropCancel t x /\ tr_creq (st_task s t) = true)) /\
   (In x (st_rq s') -> In x (st_rq s) \/ (exists src, l = LCancel src x) \/
                       (exists t n, l = LClaim t n /\ st_n2t s n = Some x /\ x <> t)).
 Proof. exact (fun cfg s l s' x H => conj (only_reaper_cancels cfg s l s' x H) (rq_only_by_request cfg s l s' x H)). Qed.
 Print Assumptions C14_only_requested_cancels.
 
-(* C14_reaper_serialises: no task is ever delivered a second cancellation (so a cancellation cannot strike the finally
-   of a task that is being cancelled) - for every configuration *)
+(* C14_reaper_serialises: the reaper never delivers a second cancellation to a task (so a cancellation cannot strike the
+   finally of a task that is being cancelled) - for every configuration *)
 Theorem C14_reaper_serialises : forall cfg ls s, run cfg ls = Some s -> forall t, (tr_ncancel (st_task s t) <= 1)%nat.
 Proof. exact reaper_serialises. Qed.
 Print Assumptions C14_reaper_serialises.
@@ -104,35 +106,46 @@ Print Assumptions C14_reaper_serialises.
 (* ---- the code as it is violates the conformant statements: one witness per open finding ---- *)
 Local Open Scope N_scope.
 Theorem C14_refuted_D22 :
-  exists s, run (mkDev true false false false) wit_d22 = Some s /\ phase_of s 0 = PDone /\
+  exists s, run (mkDev true false false false false) wit_d22 = Some s /\ phase_of s 0 = PDone /\
             tbl_live (tr_snap (st_task s 0)) = [(0, 5); (1, 6)]%N /\ calls s 0 = [(0, 5)]%N.
 Proof. exact refuted_D22. Qed.
 Print Assumptions C14_refuted_D22.
 
 Theorem C14_refuted_D20 :
-  exists s0 s, run (mkDev false true false false) (firstn 2 wit_d20) = Some s0 /\ running s0 0 = true /\ phase_of s0 0 = PBody /\
-               run (mkDev false true false false) wit_d20 = Some s /\ st_cb s 0 = None /\ tr_out (st_task s 0) = Some ORaise.
+  exists s0 s, run (mkDev false true false false false) (firstn 2 wit_d20) = Some s0 /\ running s0 0 = true /\ phase_of s0 0 = PBody /\
+               run (mkDev false true false false false) wit_d20 = Some s /\ st_cb s 0 = None /\ tr_out (st_task s 0) = Some ORaise.
 Proof. exact refuted_D20. Qed.
 Print Assumptions C14_refuted_D20.
 
 Theorem C14_refuted_D140 :
-  exists s, run (mkDev false false true false) wit_d140 = Some s /\ phase_of s 0 = PDone /\
+  exists s, run (mkDev false false true false false) wit_d140 = Some s /\ phase_of s 0 = PDone /\
             st_ours s 0 = true /\ st_cb s 0 <> None /\ st_ctx s 0 = true /\ st_t2n s 0 <> None /\ st_n2t s 3 = Some 0%N /\
             calls s 0 = [(0, 5)]%N /\ tr_out (st_task s 0) = Some (ORet (Some 7%N)) /\ tr_final (st_task s 0) = Some OCancel.
 Proof. exact refuted_D140. Qed.
 Print Assumptions C14_refuted_D140.
 
 Theorem C14_refuted_D141 :
-  exists s, run (mkDev false false false true) wit_d141 = Some s /\ phase_of s 0 = PDone /\
+  exists s, run (mkDev false false false true false) wit_d141 = Some s /\ phase_of s 0 = PDone /\
             st_ours s 0 = true /\ st_cb s 0 <> None /\ st_ctx s 0 = true /\
             calls s 0 = [(0, 5)]%N /\ tr_final (st_task s 0) = Some OEscape.
 Proof. exact refuted_D141. Qed.
 Print Assumptions C14_refuted_D141.
 
+(* D142: the blocking caller of a cancelled service run ends cancelled without any cancellation delivered to it; with the
+   switch off no such step exists *)
+Theorem C14_refuted_D142 :
+  exists s, run (mkDev false false false false true) wit_d142 = Some s /\ phase_of s 0 = PDone /\
+            tr_final (st_task s 0) = Some OCancel /\ tr_ncancel (st_task s 0) = 0%nat.
+Proof. exact refuted_D142. Qed.
+Print Assumptions C14_refuted_D142.
+Theorem C14_callee_cancel_spares_caller : forall cfg s t x, d_call_cancel_kills cfg = false -> step cfg s (LCallKilled t x) = None.
+Proof. exact callee_cancel_spares_caller. Qed.
+Print Assumptions C14_callee_cancel_spares_caller.
+
 (* the hypothesis of C14_independent_enabled is necessary *)
 Theorem C14_independent_refuted_D141 :
   exists s1 s2, st_task s1 0%N = st_task s2 0%N /\
-    (exists s', step (mkDev false false false true) s1 (LExit 0) = Some s' /\ st_cb s' 0 = None) /\
-    (exists s', step (mkDev false false false true) s2 (LExit 0) = Some s' /\ st_cb s' 0 <> None).
+    (exists s', step (mkDev false false false true false) s1 (LExit 0) = Some s' /\ st_cb s' 0 = None) /\
+    (exists s', step (mkDev false false false true false) s2 (LExit 0) = Some s' /\ st_cb s' 0 <> None).
 Proof. exact independent_needs_D141_off. Qed.
 Print Assumptions C14_independent_refuted_D141.
